@@ -421,6 +421,33 @@ func genLookup(t *Tracer, m *Meta, prop, tier string, seed int64) {
 		}
 		m.class([]string{"special:bigmimic", "special:dedupbig"}[i%2])
 	}
+	// (2a') a FULL 257-bit node: the end-of-key label and all 256 bytes (every bit of the
+	// bitmap set, the last word included), once at the root and once below a byte
+	for i := 0; i < 2; i++ {
+		keys := []string{}
+		pre := ""
+		if i == 1 {
+			pre = string([]byte{byte(r.Intn(256))})
+			for b := 0; b < 12; b++ {
+				keys = append(keys, string([]byte{byte(b * 21)}))
+			}
+		}
+		keys = append(keys, pre)
+		for b := 0; b < 256; b++ {
+			keys = append(keys, pre+string([]byte{byte(b)}))
+			if b%37 == 0 {
+				keys = append(keys, pre+string([]byte{byte(b), byte(r.Intn(256))}))
+			}
+		}
+		sort.Strings(keys)
+		keys = uniq(keys)
+		enc := pickEnc(r, prop)
+		for _, o4 := range pickOpts(r, prop, 2) {
+			c := &TrieCase{Keys: keys, Enc: enc, Vals: mkVals(r, prop, enc, len(keys)), Opt4: o4}
+			runLookupCase(t, m, r, c, lookupOpts{qlimit: 200, table: true, loaded: true, keysObs: true, mcheck: prop == "C05"})
+		}
+		m.class("special:full-257")
+	}
 	// (2b) boundary-seeking shapes: counts exactly on 64/128-bit word boundaries
 	nB := 39
 	if !quick {
